@@ -242,6 +242,8 @@ def execute(cfg: kaisa.Config, hist: list[dict[str, Any]], seed: int,
                                 continue
                             if cfg.grad_scaler is not None:
                                 p.grad.div_(cfg.grad_scaler)
+                            if cfg.union > 1:
+                                p.grad.div_(cfg.union)
                     if cfg.W > 1:
                         with simdist.owner('driver'):
                             for p in rr.model.parameters():
@@ -531,6 +533,7 @@ def replay(cfg: kaisa.Config, hist: list[dict[str, Any]], seed: int,
                        f'{str(e)[:200]}'}], 'stats': {}, 'comm': []}
         out = compare(cfg, hist, recs, interp)
         out['comm'] = []
+        out['step_grads'] = {0: [o['grads'] for o in recs if 'grads' in o]}
         return out
     allrecs: dict[int, list] = {}
 
@@ -561,8 +564,12 @@ def replay(cfg: kaisa.Config, hist: list[dict[str, Any]], seed: int,
                 stats[k] = max(stats.get(k, 0.0), v)
             elif r == 0:
                 stats[k] = stats.get(k, 0) + v
+    step_grads = {
+        r: [o['grads'] for o in allrecs.get(r, []) if 'grads' in o]
+        for r in range(cfg.W)}
     return {'mismatches': mism, 'stats': stats, 'comm': comm,
-            'events': len(world.events)}
+            'events': len(world.events), 'step_grads': step_grads,
+            'world': world}
 
 
 def factor_tol_scale(dt: torch.dtype) -> float:
